@@ -113,6 +113,7 @@ class C18(Prop):
             d = rng.randrange(rank)
             nlab = rng.choice([1, 2, 3, 4, 5])
             arr["axes"][d] = dyadic_axis(rng, arr["axes"][d]["name"], nlab, rng.choice(["inc", "inc", "dec", "shuf"]), rng.choice(["f", "f", "i"]))
+            self.label_dtype(arr["axes"][d])
             arr["vkind"] = rng.choice(["f", "f", "i"])
             if rng.random() < 0.4:
                 arr["attrs_py"] = {"units": "K"}
@@ -174,6 +175,21 @@ class C18(Prop):
                 if strs and r2.random() < 0.12:
                     c["tmpl_str"] = r2.choice(strs)
             yield c
+
+    def label_dtype(self, ax):
+        """representation variants of the interpolated axis' labels (drawn from a stream of their own): unsigned and narrow
+        integer dtypes (differences of unsigned labels wrap around; shifted to be non-negative first), single precision"""
+        r2 = random.Random("ld" + json.dumps(ax["labels"]))
+        if r2.random() >= 0.3:
+            return
+        if ax["kind"] == "i":
+            ld = r2.choice(["uint8", "uint16", "uint32", "uint64", "int8", "int32"])
+            vals = [Fraction(l[1], l[2]) for l in ax["labels"]]
+            if ld.startswith("uint") and vals and min(vals) < 0:
+                ax["labels"] = [gen.enc(v - min(vals)) for v in vals]
+            ax["ldtype"] = ld
+        elif ax["kind"] == "f":
+            ax["ldtype"] = "float32"
 
     def add_inf(self, rng, c):
         """infinite data: a +inf / -inf cell on a node of one fibre (sometimes a second one on the neighbouring node: inf..inf
@@ -528,7 +544,7 @@ class C18(Prop):
                 "order": ax.get("_order"), "nlab": len(ax["labels"]), "fills": fk, "vkind": c["array"]["vkind"],
                 "issorted": "True" if c.get("issorted") else "False" if c.get("issorted_false") else "None", "valform": c.get("valform", "array"), "newkind": c.get("newkind", "f"),
                 "nnew": min(len(c["labels"]), 3), "tmpl": c.get("tmpl"), "tmpl_extra": c.get("tmpl_extra"), "tmpl_rev": bool(c.get("tmpl_rev")),
-                "tmpl_str": bool(c.get("tmpl_str")), "ds_axis": c.get("ds_axis"), "inf": len(c["array"].get("inf_cells", [])),
+                "tmpl_str": bool(c.get("tmpl_str")), "ds_axis": c.get("ds_axis"), "inf": len(c["array"].get("inf_cells", [])), "ldtype": ax.get("ldtype"),
                 "axis_form": k[0] if k[0] != "pos" else ("pos" if k[1] >= 0 else "negpos"),
                 # every case reaches a mirror: interp -> Lib.interpAxis, like / like2 -> Lib.interpLike,
                 # dataset -> DSV.interpAxisDs, dataset_like -> DSV.interpLikeDs
